@@ -14,7 +14,7 @@ func generate(prop string, seed int64, n int) []Group {
 			gr = genC20(g, i)
 		case "C04":
 			gr = genC04(g, i)
-		case "C01", "C02", "C03", "C05", "C07", "C08", "C10", "C11", "C12", "C13", "C15", "C18":
+		case "C01", "C02", "C03", "C05", "C07", "C08", "C10", "C11", "C12", "C13", "C14", "C15", "C18":
 			gr = genContainer(g, prop, i)
 		case "C17":
 			gr = genC17(g, i)
@@ -100,8 +100,10 @@ func genC20(g *Gen, i int) Group {
 		entries = append(entries, Module{Kind: "add", Reg: r})
 		if g.p(0.12) {
 			// remove something registered so far (or not registered at all)
-			id := regOutputs(regs[g.n(len(regs))])[0]
-			if id.group == 0 && id.ty != tVoid {
+			outs := regOutputs(regs[g.n(len(regs))])
+			id := outs[0]
+			// (removing one identity of a multi-return / result-object registration is outside the property: DESIGN section 7)
+			if len(outs) == 1 && id.group == 0 && id.ty != tVoid {
 				if id.name != 0 {
 					entries = append(entries, Module{Kind: "removekeyed", Ty: id.ty, Name: id.name})
 				} else {
@@ -131,6 +133,25 @@ func genC20(g *Gen, i int) Group {
 		entries = append(entries[:pos:pos], append([]Module{{Kind: "add", Reg: bad}}, entries[pos:]...)...)
 	}
 	tree := g.moduleTree(entries, 0)
+	if i%8 == 6 {
+		// two modules defined from one and the same list of entries (a nil entry first): group members, so
+		// that applying the list twice is legal and accumulates
+		grp := 1 + g.n(2)
+		var shared []Module
+		shared = append(shared, Module{Kind: "nil"})
+		for k := 0; k < 2+g.n(2); k++ {
+			r := &Reg{ID: g.nextRid, Life: g.life([3]int{0, 1, 1}), Form: Form{Kind: "ctor", Rets: []int{g.n(8)}}, Dyn: []int{0}, CFail: []bool{false}, Group: grp}
+			r.Dyn[0] = r.Form.Rets[0]
+			g.nextRid++
+			regs = append(regs, r)
+			shared = append(shared, Module{Kind: "add", Reg: r})
+			if g.p(0.3) {
+				shared = append(shared, Module{Kind: "nil"})
+			}
+		}
+		sid := 1 + i
+		tree = append(tree, Module{Kind: "module", Name: 1 + g.n(6), Mods: shared, Shared: sid}, Module{Kind: "module", Name: 1 + g.n(6), Mods: shared, Shared: sid})
+	}
 	tail := queryOps(regs)
 	tail = append(tail, Op{Kind: "build"})
 	h := defaultHist()
@@ -169,6 +190,8 @@ func genC04(g *Gen, i int) Group {
 		}
 		regs = append(regs, &Reg{ID: g.nextRid, Life: Transient, Form: Form{Kind: "ctor", InObj: true, Params: ps, Rets: []int{1}}, Dyn: []int{1}, CFail: []bool{false}})
 		g.nextRid++
+	} else if i%3 == 1 && i%2 == 0 {
+		regs = g.aliasGroupFamily(g.life([3]int{1, 1, 1}))
 	} else {
 		cfg := defaultCfg()
 		cfg.NRegs = 3 + g.n(7)
@@ -249,6 +272,8 @@ func genContainer(g *Gen, prop string, i int) Group {
 		cfg.PDisposable = 0.85
 		cfg.PFault = 0.12
 		cfg.EagerFaults = g.p(0.4)
+		cfg.PBuildCancel = 0.25
+		cfg.LifeWeights = [3]int{5, 3, 3}
 		cfg.PMulti, cfg.PResult = 0.15, 0.15
 		cfg.PVoid = 0.12
 		h.PClose = 0.2
@@ -261,8 +286,10 @@ func genContainer(g *Gen, prop string, i int) Group {
 		h.MaxScopes = 7
 		finalClose = true
 	case "C12":
-		cfg.PDisposable = 0.9
-		cfg.PCloseFail = 0.35
+		cfg.PDisposable = 0.95
+		cfg.PCloseFail = 0.5
+		cfg.LifeWeights = [3]int{2, 4, 4}
+		h.NOps = 16 + g.n(10)
 		h.PClose = 0.3
 		h.PCloseProv = 0.08
 		finalClose = true
@@ -274,8 +301,21 @@ func genContainer(g *Gen, prop string, i int) Group {
 		h.PCtxQueries = 0.08
 		h.MaxScopes = 7
 		h.NOps = 18 + g.n(14)
+	case "C14":
+		// scopes created, used and closed again and again; initializers that fail at every position
+		cfg.PVoid = 0.25
+		cfg.PFault = 0.15
+		cfg.PDisposable = 0.7
+		h.PClose = 0.3
+		h.PCtx = 0.3
+		h.PCancel = 0.08
+		h.PCtxQueries = 0.08
+		h.MaxScopes = 10
+		h.NOps = 24 + g.n(20)
+		finalClose = g.p(0.7)
 	case "C15":
 		cfg.PFault = 0.3
+		cfg.PBuildCancel = 0.15
 		cfg.EagerFaults = g.p(0.5)
 		cfg.PCycle, cfg.PConflict, cfg.PMissing = 0.08, 0.08, 0.08
 		h.PUnknown = 0.2
@@ -289,6 +329,13 @@ func genContainer(g *Gen, prop string, i int) Group {
 		h.MaxScopes = 6
 	}
 	regs := g.RegSet(cfg)
+	if prop == "C07" && i%7 == 3 {
+		return g.aliasRemovalCase(i)
+	}
+	if (prop == "C01" || prop == "C02" || prop == "C03" || prop == "C10") && i%6 == 5 {
+		life := map[string]int{"C01": Singleton, "C02": Scoped, "C03": Transient, "C10": g.life([3]int{1, 1, 1})}[prop]
+		regs = g.aliasGroupFamily(life)
+	}
 	ops := addOps(regs)
 	if prop == "C15" {
 		// the malformed stream: invalid registrations and nil arguments
@@ -355,6 +402,24 @@ func genContainer(g *Gen, prop string, i int) Group {
 			ops = append(ops, Op{Kind: "close", P: 0, H: hh}, Op{Kind: "close", P: 0, H: hh})
 		}
 	}
+	if prop == "C11" || prop == "C12" || prop == "C13" || prop == "C10" {
+		if i%5 == 4 {
+			ops = append(ops, g.wideTree(regs, ops)...)
+		}
+	}
+	if prop == "C12" || prop == "C13" {
+		// what was resolved before is asked for again on the (now closed) scopes
+		var again []Op
+		for _, o := range ops {
+			if o.Kind == "createscope" && o.Ctx != 0 {
+				continue // its context may have been cancelled meanwhile: a scope created from it is closed asynchronously
+			}
+			if (o.Kind == "resolve" || o.Kind == "resolvegroup" || o.Kind == "createscope") && len(again) < 8 && g.p(0.6) {
+				again = append(again, o)
+			}
+		}
+		ops = append(ops, again...)
+	}
 	if finalClose {
 		ops = append(ops, Op{Kind: "closeprovider", P: 0})
 		if prop == "C12" || prop == "C13" {
@@ -363,15 +428,104 @@ func genContainer(g *Gen, prop string, i int) Group {
 			ops = append(ops, Op{Kind: "createscope", P: 0, Parent: 0})
 		}
 	}
-	return Group{Cases: []Case{{Name: fmt.Sprintf("%d", i), Ops: ops}}}
+	if prop == "C14" {
+		// the bookkeeping is read after every operation on the provider
+		var with []Op
+		for _, o := range ops {
+			with = append(with, o)
+			switch o.Kind {
+			case "createscope", "close", "closeprovider", "cancel", "resolve", "resolvegroup", "build":
+				with = append(with, Op{Kind: "stats", P: 0})
+			}
+		}
+		ops = with
+	}
+	slow := (prop == "C11" || prop == "C12" || prop == "C13" || prop == "C10") && i%3 == 1
+	return Group{Cases: []Case{{Name: fmt.Sprintf("%d", i), Ops: ops, SlowClose: slow}}}
+}
+
+// aliasGroupFamily: registrations under several As interfaces combined with groups, names and
+// instance values of one type — the shapes in which identities of one registration differ in more
+// than the type (group members are numbered per (type, group)).
+func (g *Gen) aliasGroupFamily(life int) []*Reg {
+	var regs []*Reg
+	mk := func(l int, dyn int, as []int, name, group int) *Reg {
+		r := &Reg{ID: g.nextRid, Life: l, Form: Form{Kind: "ctor", Rets: []int{dyn}, Err: g.p(0.3)}, Dyn: []int{dyn}, CFail: []bool{false}, As: as, Name: name, Group: group}
+		g.nextRid++
+		return r
+	}
+	grp := 1 + g.n(2)
+	ifs := g.rnd.Perm(4)
+	a, b, c := 16+ifs[0], 16+ifs[1], 16+ifs[2]
+	// groups of different sizes per interface, then a registration that joins several of them
+	for k := g.n(3); k > 0; k-- {
+		regs = append(regs, mk(g.life([3]int{1, 1, 1}), g.n(16), []int{[]int{a, b, c}[g.n(3)]}, 0, grp))
+	}
+	regs = append(regs, mk(life, g.n(16), []int{a, b}, 0, grp))
+	if g.p(0.5) {
+		regs = append(regs, mk(life, g.n(16), []int{b, c, a}, 0, grp))
+	}
+	if g.p(0.5) {
+		regs = append(regs, mk(life, g.n(16), []int{a, c}, 1+g.n(3), 0))
+	}
+	// several instance values of one type under different names / in one group
+	if g.p(0.6) {
+		ty := g.n(8)
+		if life == Singleton && g.p(0.5) {
+			ty += 8
+		}
+		for k := 0; k < 2+g.n(2); k++ {
+			r := &Reg{ID: g.nextRid, Life: life, Form: Form{Kind: "inst", Ty: ty}, Dyn: []int{ty}, CFail: []bool{false}}
+			g.nextRid++
+			if g.p(0.5) {
+				r.Name = k + 1
+			} else {
+				r.Group = grp
+			}
+			if life != Singleton && ty >= 8 {
+				r.Form.Ty, r.Dyn[0] = ty-8, ty-8
+			}
+			regs = append(regs, r)
+		}
+	}
+	// a consumer of the groups
+	var ps []Param
+	for _, t := range []int{a, b, c} {
+		if g.p(0.7) {
+			ps = append(ps, Param{Dep: Dep{Ty: t, Group: grp}})
+		}
+	}
+	cl := Transient
+	if life == Scoped {
+		cl = Scoped
+	}
+	allLong := true
+	for _, r := range regs {
+		if r.Life == Scoped {
+			allLong = false
+		}
+	}
+	if allLong || cl == Scoped {
+		regs = append(regs, &Reg{ID: g.nextRid, Life: cl, Form: Form{Kind: "ctor", InObj: true, Params: ps, Rets: []int{7}}, Dyn: []int{7}, CFail: []bool{false}, Name: 9})
+		g.nextRid++
+	}
+	g.rnd.Shuffle(len(regs), func(i, j int) {
+		// keep the relative order of group members of the same (interface, group)? not needed: any order is a valid set
+		regs[i], regs[j] = regs[j], regs[i]
+	})
+	return regs
 }
 
 // ---------------------------------------------------------------- C17
 
 func genC17(g *Gen, i int) Group {
+	if i%9 == 4 {
+		return g.aliasRemovalCase(i)
+	}
 	cfg := defaultCfg()
 	cfg.NRegs = 4 + g.n(7)
 	cfg.PMulti, cfg.PResult, cfg.PAs = 0.15, 0.15, 0.2
+	cfg.PGroup = 0.4
 	regs := g.RegSet(cfg)
 	q := func() []Op {
 		out := []Op{{Kind: "count"}}
@@ -532,12 +686,14 @@ func genC06(g *Gen, i int) Group {
 		}
 	}
 	tail = append(tail, Op{Kind: "closeprovider", P: 0})
-	groupOf := func(r *Reg) (ident, bool) {
-		ids := regOutputs(r)
-		if len(ids) > 0 && ids[0].group != 0 {
-			return ident{ids[0].ty, 0, ids[0].group}, true
+	// registrations with a grouped output keep their relative order (conservatively: among all of them)
+	grouped := func(r *Reg) bool {
+		for _, id := range regOutputs(r) {
+			if id.group != 0 {
+				return true
+			}
 		}
-		return ident{}, false
+		return false
 	}
 	permute := func() []*Reg {
 		perm := g.rnd.Perm(len(regs))
@@ -545,23 +701,20 @@ func genC06(g *Gen, i int) Group {
 		for k, j := range perm {
 			out[k] = regs[j]
 		}
-		// restore the original relative order inside each group
-		pos := map[ident][]int{}
+		var pos []int
 		for k, r := range out {
-			if gk, ok := groupOf(r); ok {
-				pos[gk] = append(pos[gk], k)
+			if grouped(r) {
+				pos = append(pos, k)
 			}
 		}
-		for gk, ps := range pos {
-			var members []*Reg
-			for _, r := range regs {
-				if k2, ok := groupOf(r); ok && k2 == gk {
-					members = append(members, r)
-				}
+		var members []*Reg
+		for _, r := range regs {
+			if grouped(r) {
+				members = append(members, r)
 			}
-			for k, p := range ps {
-				out[p] = members[k]
-			}
+		}
+		for k, p := range pos {
+			out[p] = members[k]
 		}
 		return out
 	}
@@ -579,5 +732,118 @@ func genC06(g *Gen, i int) Group {
 	return Group{Kind: "variants", Cases: cases}
 }
 
-func cmdWeb(args []string)   { die("web: not built yet") }
-func cmdConc(args []string)  { die("conc: not built yet") }
+
+// aliasRemovalCase (C07, C17): a scoped registration under two As interfaces, one of the interfaces removed
+// again, and a long-lived consumer of the other one; sometimes removed twice / re-added.
+func (g *Gen) aliasRemovalCase(i int) Group {
+	ifs := g.rnd.Perm(4)
+	a, b := 16+ifs[0], 16+ifs[1]
+	mk := func(life int, dyn int, as []int, name int) *Reg {
+		r := &Reg{ID: g.nextRid, Life: life, Form: Form{Kind: "ctor", Rets: []int{dyn}}, Dyn: []int{dyn}, CFail: []bool{false}, As: as, Name: name}
+		g.nextRid++
+		return r
+	}
+	name := 0
+	if g.p(0.3) {
+		name = 1 + g.n(2)
+	}
+	s := mk(Scoped, g.n(16), []int{a, b}, name)
+	var ops []Op
+	if g.p(0.5) {
+		ops = append(ops, Op{Kind: "add", Reg: mk(g.life([3]int{2, 0, 2}), g.n(8), nil, 0)})
+	}
+	ops = append(ops, Op{Kind: "add", Reg: s})
+	rm := func(t int) Op {
+		if name != 0 {
+			return Op{Kind: "removekeyed", Ty: t, Name: name}
+		}
+		return Op{Kind: "remove", Ty: t}
+	}
+	ops = append(ops, rm(a), Op{Kind: "count"}, Op{Kind: "slice"})
+	if g.p(0.3) {
+		ops = append(ops, rm(a)) // removing it again changes nothing
+	}
+	consumerLife := []int{Singleton, Transient, Scoped}[g.n(3)]
+	c := &Reg{ID: g.nextRid, Life: consumerLife, Form: Form{Kind: "ctor", InObj: true, Params: []Param{{Dep: Dep{Ty: b, Name: name}}}, Rets: []int{7}}, Dyn: []int{7}, CFail: []bool{false}, Name: 9}
+	g.nextRid++
+	ops = append(ops, Op{Kind: "add", Reg: c})
+	if g.p(0.3) {
+		ops = append(ops, Op{Kind: "add", Reg: mk(Scoped, g.n(16), []int{a}, name)}) // the freed identity can be taken again
+	}
+	ops = append(ops, Op{Kind: "count"}, Op{Kind: "build"}, Op{Kind: "createscope", P: 0, Parent: 0},
+		Op{Kind: "resolve", P: 0, H: 1, Ty: b, Name: name}, Op{Kind: "resolve", P: 0, H: 1, Ty: a, Name: name},
+		Op{Kind: "resolve", P: 0, H: 1, Ty: 7, Name: 9}, Op{Kind: "resolve", P: 0, H: 0, Ty: 7, Name: 9}, Op{Kind: "closeprovider", P: 0})
+	return Group{Cases: []Case{{Name: fmt.Sprintf("%d/alias-removal", i), Ops: ops}}}
+}
+
+// wideTree: a scope with several children (created without a context of their own, so that closing the
+// parent wakes their watcher goroutines), something disposable resolved in each, the parent closed in one of
+// three ways, and then every scope used again.
+func (g *Gen) wideTree(regs []*Reg, before []Op) []Op {
+	n := 0
+	maxCtx := 0
+	for _, o := range before {
+		if o.Kind == "createscope" {
+			n++
+			if o.Ctx > maxCtx {
+				maxCtx = o.Ctx
+			}
+		}
+	}
+	var ids []ident
+	for _, r := range regs {
+		if r.Life == Singleton {
+			continue
+		}
+		for _, id := range regOutputs(r) {
+			if id.ty != tVoid {
+				ids = append(ids, id)
+			}
+		}
+	}
+	res := func(h int) []Op {
+		var out []Op
+		for k := 0; k < 2 && len(ids) > 0; k++ {
+			id := ids[g.n(len(ids))]
+			if id.group != 0 {
+				out = append(out, Op{Kind: "resolvegroup", P: 0, H: h, Ty: id.ty, Group: id.group})
+			} else {
+				out = append(out, Op{Kind: "resolve", P: 0, H: h, Ty: id.ty, Name: id.name})
+			}
+		}
+		return out
+	}
+	var ops []Op
+	parent := n + 1
+	pctx := 0
+	if g.p(0.5) {
+		pctx = maxCtx + 1
+	}
+	ops = append(ops, Op{Kind: "createscope", P: 0, Parent: 0, Ctx: pctx})
+	ops = append(ops, res(parent)...)
+	k := 3 + g.n(4)
+	var kids []int
+	for j := 0; j < k; j++ {
+		h := parent + 1 + j
+		kids = append(kids, h)
+		ops = append(ops, Op{Kind: "createscope", P: 0, Parent: parent})
+		ops = append(ops, res(h)...)
+	}
+	gc := parent + k + 1
+	ops = append(ops, Op{Kind: "createscope", P: 0, Parent: kids[g.n(len(kids))]})
+	ops = append(ops, res(gc)...)
+	switch {
+	case pctx != 0 && g.p(0.5):
+		ops = append(ops, Op{Kind: "cancel", Ctx: pctx})
+	default:
+		ops = append(ops, Op{Kind: "close", P: 0, H: parent})
+	}
+	for _, h := range append(append([]int{}, kids...), gc, parent) {
+		if r := res(h); len(r) > 0 {
+			ops = append(ops, r[0])
+		}
+		ops = append(ops, Op{Kind: "createscope", P: 0, Parent: h})
+		ops = append(ops, Op{Kind: "close", P: 0, H: h})
+	}
+	return ops
+}
